@@ -130,6 +130,32 @@ def relations(rng, tier, rpt):
                 if k != pk.Raw().ToBytes() or gm != want_mode or w != ref:
                     rep("WIF does not round-trip (key, compression mode) under the coin's version byte", "%s.%s mode=%s" % (r["family"], r["member"], want_mode),
                         "%s %s %s" % (w, k.hex(), gm), "%s %s %s" % (ref, pk.Raw().ToHex(), want_mode))
+    # output-dependent: private keys whose LAST byte is 0x01 (the value of the WIF compression suffix) and keys that start with a zero byte,
+    # found by scanning seeds; both modes must round-trip to (key, mode) under the coin's byte
+    import bip_utils as _B
+    Bip44, Bip44Coins, Bip44ConfGetter, Cip1852ConfGetter = _B.Bip44, _B.Bip44Coins, _B.Bip44ConfGetter, _B.Cip1852ConfGetter
+    for coin in (Bip44Coins.BITCOIN, Bip44Coins.LITECOIN, Bip44Coins.DOGECOIN_TESTNET):
+        need = {"ends-01", "starts-00"}
+        wv = Bip44ConfGetter.GetConfig(coin).WifNetVersion()
+        for j in range(3000):
+            if not need:
+                break
+            sd = rng.getrandbits(128).to_bytes(16, "big")
+            kbytes = Bip44.FromSeed(sd, coin).PrivateKey().Raw().ToBytes()
+            tag = "ends-01" if kbytes[-1] == 1 else "starts-00" if kbytes[0] == 0 else None
+            if tag in need:
+                need.discard(tag)
+                pk = Bip44.FromSeed(sd, coin).PrivateKey()
+                for md in (WifPubKeyModes.UNCOMPRESSED, WifPubKeyModes.COMPRESSED):
+                    n += 1
+                    w = pk.ToWif(md)
+                    try:
+                        got = WifDecoder.Decode(w, wv)
+                    except Exception as ex:  # noqa
+                        got = type(ex).__name__
+                    if got != (kbytes, md):
+                        rep("WIF of a key that %s does not round-trip to (key, mode)" % ("ends with 0x01" if tag == "ends-01" else "starts with 0x00"),
+                            "%s master of seed %s mode=%s wif=%s" % (coin.name, sd.hex(), md, w), str(got), "(%s, %s)" % (kbytes.hex(), md))
     # Substrate and Monero members: the coin's own decoder, with the coin's own parameters, accepts the coin's addresses
     from bip_utils import (Substrate, SubstrateCoins, SubstrateSr25519AddrDecoder, Monero, MoneroCoins, XmrAddrDecoder, XmrIntegratedAddrDecoder,
                            Ed25519PrivateKey)
@@ -171,11 +197,25 @@ def relations(rng, tier, rpt):
     # CIP-1852, the toggles above) must leave the shared configuration objects as they found them
     from bip_utils import CardanoShelley, Cip1852, Cip1852Coins, Bip44Changes
     snap0 = json.dumps(rows(), sort_keys=True, default=str)
+    from bip_utils import AdaShelleyAddrDecoder, AdaShelleyStakingAddrDecoder
     for coin in Cip1852Coins:
         acc = Cip1852.FromSeed(seed, coin).Purpose().Coin().Account(0)
         sh = CardanoShelley.FromCip1852Object(acc)
-        sh.Change(Bip44Changes.CHAIN_EXT).AddressIndex(0).PublicKeys().ToAddress()
+        leaf = sh.Change(Bip44Changes.CHAIN_EXT).AddressIndex(0)
+        pay = leaf.PublicKeys().ToAddress()
         sh.StakingObject().PublicKey().ToAddress()
+        # every route to the staking / reward address of a member agrees, and the member's own decoders (its own network tag) accept them
+        net_tag = Cip1852ConfGetter.GetConfig(coin).AddrParams()["net_tag"]
+        stk = {"PublicKeys().ToStakingAddress()": leaf.PublicKeys().ToStakingAddress(), "PublicKeys().ToRewardAddress()": leaf.PublicKeys().ToRewardAddress(),
+               "StakingObject().PublicKey().ToAddress()": sh.StakingObject().PublicKey().ToAddress(), "RewardObject().PublicKey().ToAddress()": sh.RewardObject().PublicKey().ToAddress()}
+        n += 1
+        if len(set(stk.values())) != 1:
+            rep("the routes to the staking address of one CIP-1852 wallet disagree", coin.name, str(stk), "one address")
+        for what, a, dec in [(k, v, AdaShelleyStakingAddrDecoder) for k, v in stk.items()] + [("PublicKeys().ToAddress()", pay, AdaShelleyAddrDecoder)]:
+            try:
+                dec.DecodeAddr(a, net_tag=net_tag)
+            except Exception as ex:  # noqa
+                rep("the coin's own decoder (its network tag) rejects the coin's %s" % what, "%s %s" % (coin.name, a), type(ex).__name__, "accepted")
         try:
             plain = acc.Change(Bip44Changes.CHAIN_EXT).AddressIndex(0).PublicKey().ToAddress()
             rep("a plain CIP-1852 object yields an address although its format needs the staking key (configuration changed by a wrapper?)", coin.name, plain, "ValueError")
